@@ -192,8 +192,8 @@ def _out_of_range(rng, what):
 
 
 def gen_cases(rng, tier):
-    n_valid = 44 if tier == 'quick' else 440
-    n_out = 2 if tier == 'quick' else 12
+    n_valid = 150 if tier == 'quick' else 1500
+    n_out = 5 if tier == 'quick' else 30
     cases = []
     # fixed seeds of the space: minimal, and the point-count boundary 10 / 11
     for npts in (10, 11):
@@ -340,6 +340,8 @@ def _exc(e):
 
 def run_impl(case, ctx):
     import logging
+    import warnings
+    warnings.filterwarnings('ignore', message='loadtxt: input contained no data')
     from kapture.io.csv import kapture_from_dir
     from kapture.converter.opensfm.export_opensfm import export_opensfm
     from kapture.converter.opensfm.import_opensfm import import_opensfm
@@ -575,8 +577,8 @@ def shrink(case):
             yield c
     if case['points']:
         n = len(case['points'])
-        for m in sorted({0, n // 2, n - 1, 11, 10} - {n}):
-            if 0 <= m < n:
+        for m in sorted({1, n // 2, n - 1, 11, 10} - {n}):     # never down to the empty cloud: a different code path
+            if 1 <= m < n:
                 c = json.loads(json.dumps(case))
                 c['points'] = c['points'][:m]
                 yield c
